@@ -73,8 +73,11 @@ def run(ctx) -> None:
             bases.append(open(REPO / name, encoding="utf-8").read())
         except OSError:
             pass
+    # the (unfinished) .struct directive: every form must still end with a result or an error
+    bases += [".struct point {\nbyte x\nword y\n}\n", ".struct header { dword checksum }\n.db 1\n", ".struct p { x }\n",
+              ".struct p {\n byte a b\n}\nnop\n", ".struct q {\n}\n", ".struct {\nlong z\n}\n"]
     for b in bases:
-        texts += mutations(b, rnd, not ctx.quick)
+        texts += [b] + mutations(b, rnd, not ctx.quick)
     texts = list(dict.fromkeys(texts))
     tasks = [{"text": t, "scan_budget": 40 * (len(t) + 2) ** 2 + 1000 + 1, "parse_budget_base": 1001} for t in texts]
     # inputs that come with files: .text strings over joker fragments with a table, and every truncation of a patch
